@@ -137,6 +137,13 @@ func finishHist(sum *vh.Summary, cw *vh.CaseWriter, h *hist, src string, toModel
 	}
 	if toModel || h.fail != "" {
 		sum.Hist("history-sent-to-model")
+		// check_case_src replays these with the programs extracted from node.go (Gen/NodeOps.v)
+		for k, v := range h.adds {
+			sum.Histogram["model runs extracted add_child_prog:"+k] += v
+		}
+		for k, v := range h.removals {
+			sum.Histogram["model runs extracted remove_unlink_prog:"+k] += v
+		}
 		cw.Add(h.coqCase(), map[string]interface{}{"kind": "history", "case": c})
 	}
 }
@@ -709,7 +716,7 @@ func main() {
 		"operation histories (CreateNode/CreateXMLNode/CreateJSONNode, AddChild, RemoveAndReleaseTree) on the real idr API with pooling on and off, "+
 			"plus trees handed out by the seven readers (also on concatenated / trailing JSON and XML input with root-selecting targets, with the pool drained after every Read and with a second owner that takes pooled nodes between the Reads and re-audits what it holds), racing acquisitions and build-hold-reverify stress from a cold pool on 16 goroutines (repeated in a child built with -race), and a recycle soak (one node, and a parent with 3 children, released and re-created 2^24+2^16 times next to nodes that stay live; every new ID compared with all held IDs); non-trivial = the history contains a removal followed by a creation that got a pooled node back; "+
 			"distinct by (pooling, operation list)")
-	cw := vh.NewCaseWriter(o, "C12", "Base.Tree Model.Heap", "c12case", "check_case")
+	cw := vh.NewCaseWriter(o, "C12", "Base.Tree Model.Heap Model.HeapOpsGen", "c12case", "check_case_src")
 	cw.PerFile = 100 // elaborating the case terms dominates the cost of a shard
 
 	// ---- racing acquisitions: 16 goroutines ----
